@@ -19,6 +19,18 @@ theorem C03 (hc : HashCfg K V D) (p q : Pg K V D)
     (h : p.trueHash hc = q.trueHash hc) : p.content = q.content :=
   merkle_inj hc p q hcf h
 
+/-- The caveat, machine-checked (a test, not part of the claim): with the library's raw byte
+encoding (keys, value digests and page digests written back to back, no length prefixes) two
+DIFFERENT page pre-images can have the SAME byte stream — here key `[1]` with value digest `[2,3]`
+versus key `[1,2]` with value digest `[3]`. No hash function can tell them apart, which is why
+`CollisionFree` is stated on pre-images rather than on byte streams. (With the fixed digest width
+of a real tree this needs variable-length keys and adversarially chosen value digests.) -/
+example :
+    let hc : HashCfg (List UInt8) (List UInt8) (List UInt8) := { kb := id, vb := id, db := id, h := id }
+    ([(none, [1], [2, 3])], none) ≠ (([(none, [1, 2], [3])], none) : PageTok (List UInt8) (List UInt8) (List UInt8)) ∧
+    encodeTok hc ([(none, [1], [2, 3])], none) = encodeTok hc ([(none, [1, 2], [3])], none) := by
+  decide
+
 variable [LinearOrder K]
 
 /-- For trees reached by histories: if the last-write-wins maps differ in any key or value digest,
